@@ -2,7 +2,7 @@
 from __future__ import annotations
 import importlib
 from ..runner import Stage
-from .. import frames as F, coqrun as C
+from .. import frames as F, coqrun as C, proto_common as PCM
 
 
 def _cmds():
@@ -195,7 +195,7 @@ SPEC = dict(
              '-32768..65535, even payloads 2..246 bytes (8 for AA55). No axioms (Print Assumptions: closed).',
         technique='Coq proof over regenerated model (py2v) + translator validation + wire monitor',
         design_ref='DESIGN.md section 5 (C03)'),
-    stages=[stage_translation, stage_monitor],
+    stages=[stage_translation, stage_monitor, PCM.stage_for('C03')],
     theorems=['C03_rtu', 'C03_rtu_multi', 'C03_crc', 'C03_tcp', 'C03_tcp_multi', 'C03_tx', 'C03_aa55_read',
               'C03_aa55_write', 'C03_aa55_write_multi'],
     rule='translator validation: generated builders vs Python on boundary + seeded arguments incl. out-of-domain ones '
